@@ -347,3 +347,97 @@ theorem sortNames_eq (l s : List (List Nat)) (hperm : l.Perm s)
   exact List.mergeSort_of_pairwise hs
 
 end GluonModel.Determinism.Proofs
+
+namespace GluonModel.Determinism.Proofs
+open GluonModel.Determinism
+
+/-! ### 5. errors of concurrent macro expansions -/
+
+section Collect
+variable {ε : Type}
+
+theorem leIdx_trans (a b c : Nat × ε) : leIdx a b = true → leIdx b c = true → leIdx a c = true := by
+  simp only [leIdx, decide_eq_true_eq]; omega
+
+theorem leIdx_total (a b : Nat × ε) : (leIdx a b || leIdx b a) = true := by
+  simp only [leIdx, Bool.or_eq_true, decide_eq_true_eq]; omega
+
+/-- The tagged errors in source order are strictly increasing in the tag and all tags are ≥ s. -/
+theorem collect_zipIdx_sorted (results : List (Option ε)) :
+    ∀ s, (collectErrors (results.zipIdx s)).Pairwise (fun a b => a.1 < b.1) ∧
+      ∀ a ∈ collectErrors (results.zipIdx s), s ≤ a.1 := by
+  induction results with
+  | nil => intro s; simp [collectErrors]
+  | cons r rs ih =>
+    intro s
+    obtain ⟨hp, hge⟩ := ih (s + 1)
+    cases r with
+    | none =>
+      simp only [List.zipIdx_cons, collectErrors, List.filterMap_cons, Option.map_none]
+      refine ⟨hp, fun a ha => ?_⟩
+      have := hge a ha
+      omega
+    | some e =>
+      simp only [List.zipIdx_cons, collectErrors, List.filterMap_cons, Option.map_some]
+      refine ⟨List.pairwise_cons.mpr ⟨fun a ha => ?_, hp⟩, fun a ha => ?_⟩
+      · have := hge a ha
+        simp only
+        omega
+      · rcases List.mem_cons.mp ha with h | h
+        · subst h; exact Nat.le_refl _
+        · have := hge a h
+          omega
+
+theorem collect_zipIdx_map_snd (results : List (Option ε)) :
+    ∀ s, (collectErrors (results.zipIdx s)).map (fun p => p.2) = results.filterMap id := by
+  induction results with
+  | nil => intro s; simp [collectErrors]
+  | cons r rs ih =>
+    intro s
+    cases r with
+    | none =>
+      simpa [List.zipIdx_cons, collectErrors] using ih (s + 1)
+    | some e =>
+      simpa [List.zipIdx_cons, collectErrors] using ih (s + 1)
+
+theorem eq_of_same_tag {l : List (Nat × ε)} (h : l.Pairwise (fun a b => a.1 < b.1)) :
+    ∀ a b, a ∈ l → b ∈ l → a.1 = b.1 → a = b := by
+  induction l with
+  | nil => intro a b ha; simp at ha
+  | cons x xs ih =>
+    obtain ⟨hx, hxs⟩ := List.pairwise_cons.mp h
+    intro a b ha hb e
+    rcases List.mem_cons.mp ha with ha' | ha' <;> rcases List.mem_cons.mp hb with hb' | hb'
+    · rw [ha', hb']
+    · subst ha'; have := hx b hb'; omega
+    · subst hb'; have := hx a ha'; omega
+    · exact ih hxs a b ha' hb' e
+
+theorem reportErrors_of_perm (results : List (Option ε)) (arrived : List (Option ε × Nat))
+    (h : arrived.Perm (tagTasks results)) : reportErrors arrived = results.filterMap id := by
+  have hsorted := (collect_zipIdx_sorted results 0).1
+  have hperm : (collectErrors arrived).Perm (collectErrors (results.zipIdx 0)) :=
+    List.Perm.filterMap _ h
+  have hle : (collectErrors (results.zipIdx 0)).Pairwise (fun a b => leIdx a b = true) :=
+    hsorted.imp (fun {a b} hab => by simp only [leIdx, decide_eq_true_eq]; omega)
+  have key : (collectErrors arrived).mergeSort leIdx = collectErrors (results.zipIdx 0) := by
+    apply List.Perm.eq_of_pairwise (le := fun a b => leIdx a b = true)
+    · intro a b ha hb hab hba
+      have ha' : a ∈ collectErrors (results.zipIdx 0) :=
+        hperm.subset ((List.mergeSort_perm _ _).subset ha)
+      simp only [leIdx, decide_eq_true_eq] at hab hba
+      exact eq_of_same_tag hsorted a b ha' hb (by omega)
+    · exact List.pairwise_mergeSort leIdx_trans leIdx_total _
+    · exact hle
+    · exact (List.mergeSort_perm _ _).trans hperm
+  unfold reportErrors
+  rw [key]
+  exact collect_zipIdx_map_snd results 0
+
+theorem reportErrorsLateNumbering_eq (arrived : List (Option ε)) :
+    reportErrorsLateNumbering arrived = arrived.filterMap id :=
+  reportErrors_of_perm arrived arrived.zipIdx (List.Perm.refl _)
+
+end Collect
+
+end GluonModel.Determinism.Proofs
